@@ -47,6 +47,9 @@ pub fn golden_specs() -> Vec<Spec> {
         v.push(Spec::Static(i));
         v.push(Spec::TzifBundled(i));
     }
+    for i in 0..DB_NAMES.len() {
+        v.push(Spec::Db(i as u8));
+    }
     v
 }
 
